@@ -27,7 +27,7 @@ VARIABLES now, cands, held, last, store, cur, sleepers, wr, nv, ok, hist, l, bus
 I == INSTANCE CacheI WITH Typ <- Cfg.typ, Ttl <- Cfg.ttl, MaxSize <- Cfg.max, Relevant <- RelevantSet,
         Sts <- {}, Hdrs <- {}, Szs <- {}, NVal <- 1000000000, Steps <- {}, MaxNow <- 1000000000,
         PerSec <- Cfg.persec, KF_UnlockedSizeCheck <- (Cfg.kf = 1), TruncNow <- (Cfg.trunc = 1),
-        NoExpiryTest <- FALSE, RefusalLeak <- FALSE, Sync <- FALSE, OneGate <- FALSE, KeepHist <- FALSE
+        NoExpiryTest <- FALSE, RefusalLeak <- FALSE, StalePeek <- FALSE, Sync <- FALSE, OneGate <- FALSE, KeepHist <- FALSE
 
 model == <<now, cands, held, last, store, cur, sleepers, wr, nv, ok, hist>>
 tvars == <<model, l, busy, pendR, doneR>>
